@@ -2,6 +2,9 @@
 // Unit shape: check_topdomain / query_datalen (via glue/unit_api.c) against the label-wise reference
 // in ref/refmisc.cc.  Exhaustive over short strings of the alphabet {a,A,b,-,.,*,0}; random long names.
 #include "sim/harness.h"
+#include "sim/scenario.h"
+#include "ref/refdns.h"
+#include "ref/refproto.h"
 #include "glue/unit_api.h"
 #include "ref/refmisc.h"
 #include <cstring>
@@ -47,8 +50,11 @@ static std::string rand_label(Tape &t, int maxlen, bool hostile)
 	return s;
 }
 
+static CaseResult dispatch_case(Tape &t);
+
 static CaseResult run_case(Tape &t)
 {
+	if (t.chance(1, 300)) return dispatch_case(t);
 	CaseResult r;
 	std::string sig, e;
 	if (t.chance(1, 3)) {
@@ -116,6 +122,64 @@ static CaseResult run_case(Tape &t)
 		r.cls(wild ? "match-wild" : "match-plain");
 	}
 	if (!e.empty()) r.fail(sig, e);
+	return r;
+}
+
+// Dispatch case: the real iodined with -b (queries outside the tunnel domain are relayed to a local resolver), serving a plain or a
+// wildcard domain.  NS queries are sent for generated names; a name the label-wise rule places under the domain (also the domain
+// itself and, for a wildcard, exactly one label in front of its fixed part) must be answered by iodined itself with an NS record and
+// must NOT reach the resolver; every other name must be relayed to the resolver and must NOT be answered by iodined on its own.
+static CaseResult dispatch_case(Tape &t)
+{
+	CaseResult r;
+	scn::Config c;
+	c.forward_port = 5353; c.nclients = 0; c.srv_seed = t.u32() | 1;
+	static const char *DOM[] = {"t.example.com", "a.io", "Tun.Example.ORG", "x1.y2.z3.net"};
+	c.domain = DOM[t.below(4)];
+	bool wild = t.chance(1, 3);
+	if (wild) { size_t dot = c.domain.find('.'); c.srv_domain = "*" + c.domain.substr(dot); }
+	std::string sdom = wild ? c.srv_domain : c.domain;
+	scn::Session s(c);
+	s.start_server();
+	sim::Addr resolver = sim::Addr::v4(127, 0, 0, 1, 5353), asker = sim::Addr::v4(203, 0, 113, 5, 7000);
+	std::vector<Bytes> at_resolver, at_asker;
+	sim::W.actors[resolver] = [&](const sim::Datagram &dg) { at_resolver.push_back(dg.data); };
+	sim::W.actors[asker] = [&](const sim::Datagram &dg) { at_asker.push_back(dg.data); };
+	sim::W.run_for(20000);
+	std::string fixed = wild ? sdom.substr(2) : sdom;
+	int n = t.range(3, 12), n_in = 0, n_out = 0, n_bare = 0;
+	for (int k = 0; k < n && r.ok; k++) {
+		std::string q;
+		switch (t.pick({3, 3, 2, 2, 2, 1})) {
+		case 0: q = wild ? rand_label(t, 8, true) + "." + fixed : fixed; break;                                        // exactly the domain (no data at all)
+		case 1: q = rand_label(t, 12, true) + "." + (wild ? rand_label(t, 6, true) + "." : std::string()) + fixed; break;   // data in front
+		case 2: q = rand_label(t, 9, true) + fixed; break;                                                              // glued: no label boundary
+		case 3: q = rand_label(t, 8, true) + "." + fixed.substr(1); break;                                              // first character of the domain missing
+		case 4: q = rand_label(t, 10, true) + "." + rand_label(t, 6, true) + ".org"; break;                             // unrelated
+		default: q = wild ? fixed : rand_label(t, 5, true) + "." + fixed + "." + rand_label(t, 3, true); break;          // fixed part alone under a wildcard / domain in the middle
+		}
+		if (t.chance(1, 2)) for (auto &ch : q) if (t.chance(1, 3)) { if (ch >= 'a' && ch <= 'z') ch = (char)(ch - 32); else if (ch >= 'A' && ch <= 'Z') ch = (char)(ch + 32); }
+		if (!name_form_ok(q) || q.size() > 253) continue;
+		bool labels_ok = true; { size_t st = 0; for (size_t i = 0; i <= q.size(); i++) if (i == q.size() || q[i] == '.') { if (i - st < 1 || i - st > 63) labels_ok = false; st = i + 1; } }
+		if (!labels_ok) continue;
+		int want = ref::match_datalen(q, sdom);
+		size_t r0 = at_resolver.size(), a0 = at_asker.size();
+		sim::Datagram dg; dg.src = asker; dg.dst = scn::SRV4; dg.data = refproto::make_query((uint16_t)(500 + k), q, 2 /* NS */, false);
+		sim::W.send(dg); sim::W.run_for(5000);
+		bool relayed = at_resolver.size() > r0, answered = false;
+		for (size_t i = a0; i < at_asker.size(); i++) { refdns::Msg m; if (refdns::parse(at_asker[i], m).empty() && m.qr() && !m.answers.empty() && m.answers[0].type == refdns::T_NS) answered = true; }
+		if (want >= 0) { n_in++; if (want == 0) n_bare++; }
+		else n_out++;
+		std::string ctx = "NS query for \"" + q + "\" with the server domain \"" + sdom + "\" (label-wise data length " + std::to_string(want) + ")";
+		if (want >= 0 && relayed) r.fail("C17:dispatch", ctx + " was relayed to the resolver although the name lies under the tunnel domain");
+		else if (want >= 0 && !answered) r.fail("C17:dispatch", ctx + " was not answered by iodined although the name lies under the tunnel domain");
+		else if (want < 0 && answered) r.fail("C17:dispatch", ctx + " was answered by iodined itself although the name is outside the tunnel domain");
+		else if (want < 0 && !relayed) r.fail("C17:dispatch", ctx + " was not relayed to the resolver although the name is outside the tunnel domain");
+	}
+	r.render = "dispatch: server domain \"" + sdom + "\", " + std::to_string(n_in) + " names inside (" + std::to_string(n_bare) + " with no data), " + std::to_string(n_out) + " outside";
+	if (!r.ok) r.why += " [" + r.render + "]";
+	r.nontrivial = n_in >= 1 && n_out >= 1;
+	r.cls("dispatch"); if (wild) r.cls("dispatch-wildcard"); if (n_bare) r.cls("dispatch-name-equals-domain");
 	return r;
 }
 
